@@ -100,3 +100,35 @@ func TokTexts(toks []Tok) []string {
 	}
 	return out
 }
+
+// SplitStrings respells string literals that are option values or defaults (the token before them is '=' or ':')
+// as two or three adjacent literals, which the language concatenates: "hello" -> "he" "llo". Only literals without
+// escapes are split, at character boundaries, with probability pct each. The result is a token list of the same
+// meaning.
+func SplitStrings(t *rapid.T, toks []string, pct int) []string {
+	out := make([]string, 0, len(toks))
+	for i, tx := range toks {
+		ok := i >= 2 && (toks[i-1] == "=" || toks[i-1] == ":") && toks[i-2] != "syntax" && toks[i-2] != "edition" &&
+			len(tx) >= 4 && (tx[0] == '"' || tx[0] == '\'') && tx[len(tx)-1] == tx[0] && !strings.ContainsAny(tx, "\\\n")
+		if !ok || !Pct(t, pct, "splitstr") {
+			out = append(out, tx)
+			continue
+		}
+		q := tx[:1]
+		rs := []rune(tx[1 : len(tx)-1])
+		if len(rs) < 2 {
+			out = append(out, tx)
+			continue
+		}
+		cut := 1 + Uniform(t, len(rs)-1, "cut")
+		out = append(out, q+string(rs[:cut])+q)
+		rest := rs[cut:]
+		if len(rest) >= 2 && Pct(t, 30, "three") {
+			c2 := 1 + Uniform(t, len(rest)-1, "cut2")
+			out = append(out, q+string(rest[:c2])+q, q+string(rest[c2:])+q)
+		} else {
+			out = append(out, q+string(rest)+q)
+		}
+	}
+	return out
+}
